@@ -16,6 +16,7 @@ package main
 
 import (
 	"context"
+	"errors"
 	"fmt"
 	"math/rand"
 	"net/netip"
@@ -86,8 +87,11 @@ func runChain(desc *chainDesc) {
 			meta.ClientAddr = netip.MustParseAddr(c.ClientAddr)
 		}
 		cr.byName.Store(c.Name, run)
-		ctx := context.WithValue(context.Background(), ctxKey{}, run)
+		cctx, cancel := context.WithCancelCause(context.Background())
+		run.cancel = func() { cancel(errors.New("harness: client context cancelled")) }
+		ctx := context.WithValue(cctx, ctxKey{}, run)
 		payload := cr.h.Handle(ctx, q, meta, pool.PackBuffer)
+		cancel(nil)
 		var reply []byte
 		if payload != nil {
 			reply = append([]byte(nil), (*payload)...)
@@ -133,7 +137,7 @@ func runChain(desc *chainDesc) {
 func main() {
 	rep = evid.New("C15", "exploration")
 	caselog = evid.OpenCaseLog()
-	rep.SetRule("one case = one client query pushed through EntryHandler.Handle into a generated chain (random order/subset of forward_edns0opt{codes}, cache, lazy cache, has_resp->accept, ttl{fix|min-max}, ecs{preset}, ecs_handler{forward,send,preset,masks}, [qtype 16]->reject, terminal{guard|always}|real forward->loopback UDP, post-terminal ttl/forward_edns0opt), built through coremain's plugin registry + sequence.NewSequence rule text; client OPT generator: absent / sizes 0..65535 / DO / version 0-255 / Z bits / ext-rcode bits / option lists (ECS v4+v6, cookie, padding, NSID, EDE, keepalive, unknown codes, duplicates, empty); upstream reply generator: no OPT / OPT anywhere in the additional section with options, ext-rcode, version, Z / two OPTs (out-of-quantifier class: only cache-store, TTL-field and upstream-side assertions are judged for it); in a quarter of the chains a harness plugin appends an OPT with a distinctive TTL field in place to R().Extra right after the terminal (same in-scope assertions); names are reused inside a chain and the chain sleeps 1.1 s half-way so cache hits, aged hits, lazy hits and truncated replies occur. Non-trivial = a reply was produced and the client or the upstream had an OPT; distinct = chain shape x client OPT class x upstream OPT class x path(miss/hit/refetch/no-upstream) x truncated x transport")
+	rep.SetRule("one case = one client query pushed through EntryHandler.Handle into a generated chain (random order/subset of forward_edns0opt{codes}, cache, lazy cache, has_resp->accept, ttl{fix|min-max}, ecs{preset}, ecs_handler{forward,send,preset,masks}, [qtype 16]->reject, terminal{guard|always}|real forward->loopback UDP, post-terminal ttl/forward_edns0opt/[qtype 28]->drop_resp; scripted upstream outcomes incl. error / no response / silence until the client context is cancelled, so the handler-made SERVFAIL and REFUSED replies are judged too) or of the branch family (prefer_ipv4|prefer_ipv6, fallback{always_standby on/off} over primary/secondary sub-sequences, lazy cache - each in front of forward_edns0opt / ecs_handler forward and a per-branch upstream whose reply names its origin (exchange, case, branch, qtype) in a TXT record and in every EDNS option, so the relayed reply is read off the client reply and every option in it is attributed; allowed-down = options of the relayed exchange of this very case), built through coremain's plugin registry + sequence.NewSequence rule text; client OPT generator: absent / sizes 0..65535 / DO / version 0-255 / Z bits / ext-rcode bits / option lists (ECS v4+v6, cookie, padding, NSID, EDE, keepalive, unknown codes, duplicates, empty); upstream reply generator: no OPT / OPT anywhere in the additional section with options, ext-rcode, version, Z / two OPTs (out-of-quantifier class: only cache-store, TTL-field and upstream-side assertions are judged for it); in a quarter of the chains a harness plugin appends an OPT with a distinctive TTL field in place to R().Extra right after the terminal (same in-scope assertions); names are reused inside a chain and the chain sleeps 1.1 s half-way so cache hits, aged hits, lazy hits and truncated replies occur. Non-trivial = a reply was produced and the client or the upstream had an OPT; distinct = chain shape x client OPT class x upstream OPT class x path(miss/hit/refetch/no-upstream) x truncated x transport")
 	rep.Assume("oracle decodes all observed bytes with lib/wire and the dump with compress/gzip + protowire; miekg/dns is used only where mosdns' own servers/forward use it (Unpack of the client query / upstream reply)")
 	rep.Assume("'explicitly forwarded' is derived from the generated chain description: codes named by forward_edns0opt / ecs_handler forward before the terminal (upwards) or anywhere in the chain (downwards); ECS generated by ecs / ecs_handler preset|send is recomputed independently from preset, masks and client address")
 	rep.Assume("replies produced while a surplus OPT sat in R() (two-OPT upstream reply, or the harness $inject plugin) are not judged for OPT count / DO mirror / option sets: query_context documents that R() carries no OPT and pops exactly one; they are judged for: nothing stored in the cache contains an OPT, no OPT TTL field is rewritten by ttl / cache ageing / truncation")
@@ -150,6 +154,18 @@ func main() {
 		if err := rep.LoadReplay(&w); err != nil {
 			fmt.Println("cannot load replay:", err)
 			os.Exit(3)
+		}
+		if w.Chain.Branch != nil {
+			d := genBranchChain(w.Chain.Seed, w.Chain.Idx, w.Chain.NCases)
+			if d.Branch.sig() != w.Chain.Branch.sig() {
+				fmt.Println("replay: regenerated chain differs from the recorded one (generator changed?)")
+				os.Exit(3)
+			}
+			for i := 0; i < 5 && rep.Violations() == 0; i++ { // goroutine-schedule dependent: repeat
+				runBranchChain(d)
+			}
+			leak.WaitNone([]string{"cache.(*Cache).doLazyUpdate"}, nil, 10*time.Second)
+			rep.Finish()
 		}
 		d := genChain(w.Chain.Seed, w.Chain.Idx, w.Chain.NCases, w.Chain.RealForward, w.Chain.MultiOpt)
 		if d.Inject != w.Chain.Inject || d.shape() != w.Chain.shape() {
@@ -172,6 +188,12 @@ func main() {
 		descs = append(descs, genChain(rep.Seed, 100000+i, nFwdCases, true, i%4 == 3))
 	}
 
+	nBranch := rep.Pick(64, 1200)
+	nBranchCases := rep.Pick(120, 200)
+	for i := 0; i < nBranch; i++ {
+		descs = append(descs, genBranchChain(rep.Seed, 200000+i, nBranchCases))
+	}
+
 	jobs := make(chan *chainDesc)
 	var wg sync.WaitGroup
 	for w := 0; w < workers; w++ {
@@ -179,7 +201,11 @@ func main() {
 		go func() {
 			defer wg.Done()
 			for d := range jobs {
-				runChain(d)
+				if d.Branch != nil {
+					runBranchChain(d)
+				} else {
+					runChain(d)
+				}
 			}
 		}()
 	}
@@ -197,7 +223,11 @@ func main() {
 		"up_options_forwarded_explicitly", "up_ecs_generated", "reply_options_forwarded_explicitly",
 		"truncated_replies_with_opt_intact", "cached_answers_inspected_at_terminal", "path:no-upstream",
 		"dump_entries_checked", "client_opt_absent", "client_opt_present", "upstream_replies_scripted_with_two_opts",
-		"out_of_quantifier_multi_opt_reply_not_judged", "harness_injected_opts", "injected_opt_reached_client_with_ttl_field_intact"}
+		"out_of_quantifier_multi_opt_reply_not_judged", "harness_injected_opts", "injected_opt_reached_client_with_ttl_field_intact",
+		"outcome:upstream_error", "outcome:upstream_noresp", "outcome:upstream_timeout", "handler_made_replies_judged_with_client_opt",
+		"handler_made_replies_judged:rcode2", "handler_made_replies_judged:rcode5",
+		"branch_exchanges:main", "branch_exchanges:primary", "branch_exchanges:secondary", "branch_exchanges_in_lazy_refresh",
+		"lazy_hits_with_refresh_awaited", "branch_reply_options_attributed_to_relayed_exchange"}
 	for _, k := range need {
 		if rep.Get(k) == 0 {
 			rep.Inconclusive("monitor counter %s stayed 0: that part of the property was not exercised", k)
